@@ -91,6 +91,14 @@ func genStorm(t *rapid.T) *StormCase {
 		return c
 	})
 	sc.Callers = rapid.SliceOfN(gc, n, n).Draw(t, "callers")
+	// one case in three: some requesters close (or connect) the connection they
+	// were handed themselves
+	if rapid.SampledFrom(oneIn3).Draw(t, "outside") {
+		xs := rapid.SliceOfN(rapid.SampledFrom([]int{0, 0, 0, 0, 0, 1, 1, 2, 3, 4}), n, n).Draw(t, "x")
+		for i := range sc.Callers {
+			sc.Callers[i].X = xs[i]
+		}
+	}
 	if distinct {
 		for i := range sc.Callers {
 			sc.Callers[i].A = i % sc.Addrs
@@ -162,6 +170,10 @@ func genWideScenario(t *rapid.T) *Scenario {
 		sc.Steps[i].T, sc.Steps[i].A = i, i%stride
 	}
 	g := rapid.Custom(genStepN(sc.Addrs, sc.Threads, sc.Threads+8))
+	if rapid.SampledFrom(oneIn3).Draw(t, "outside") {
+		// things happen to handed-out connections outside the manager (outside.go)
+		g = rapid.Custom(genStepK(sc.Addrs, sc.Threads, sc.Threads+8, mixedKinds, append(append([]int(nil), dialModes...), 3)))
+	}
 	sc.Steps = append(sc.Steps, rapid.SliceOfN(g, 1, 30).Draw(t, "steps")...)
 	sc.Steps = append(sc.Steps, rapid.SliceOfN(g, 0, 30).Draw(t, "more")...)
 	sc.Names = genNames(t, sc.Addrs)
